@@ -9,9 +9,10 @@
   list) is replayed by the check.
 -/
 import TephraModel.Fam.Oracles
+import TephraModel.Spec.ListSpec
 
 namespace Tephra.Props
-open Tephra Tephra.Fam.Oracles
+open Tephra Tephra.Fam.Oracles Tephra.Spec
 
 theorem C11_split_count (sep : Nat) (l : List (Spec.RawTok Tok)) :
     (splitAtSep sep l).length = (l.filter (·.tok.kind == sep)).length + 1 := by
